@@ -199,9 +199,32 @@ class Function:
                 if x not in seen:
                     seen.append(x)
             b.succs = seen
+        # blocks that cannot be reached from the entry (left behind e.g. after inlining a callee that ends in exit()) are dead: they
+        # contribute no predecessor edge, no phi input and no instruction to any rule
+        live = set()
+        work = [0] if self.blocks else []
+        while work:
+            x = work.pop()
+            if x in live:
+                continue
+            live.add(x)
+            work.extend(self.blocks[x].succs)
+        self.live_blocks = live
+        for b in self.blocks:
+            if b.id not in live:
+                b.succs = []
         for b in self.blocks:
             for s in b.succs:
                 self.blocks[s].preds.append(b.id)
+        for b in self.blocks:
+            if b.id in live:
+                for i in b.insts:
+                    if i.op == "phi":
+                        i.d["incoming"] = [(v, pb) for v, pb in i.incoming if pb in live]
+                        if i.ops:
+                            i.ops = [v for v, _ in i.d["incoming"]]
+            else:
+                b.insts = [i for i in b.insts if i.op in ("br", "ret", "unreachable", "switch")][-1:]
 
     # -- values ---------------------------------------------------------
     def defn(self, o):
